@@ -44,35 +44,43 @@ def hot(rs):
     return top
 
 
-def loop_lines(relfile, func):
-    """line ranges of the for-loop bodies inside a function (brace matching on the source text)"""
-    src = open(os.path.join(common.REPO, relfile)).read().split("\n")
-    start = None
-    for i, l in enumerate(src):
-        if re.match(r"^func\s+(\([^)]*\)\s*)?%s\(" % re.escape(func), l):
-            start = i
-            break
-    if start is None:
-        return None, []
-    depth, end = 0, None
-    for i in range(start, len(src)):
-        depth += src[i].count("{") - src[i].count("}")
-        if depth == 0 and i > start:
-            end = i
-            break
-    ranges = []
-    i = start
-    while i <= end:
-        if re.match(r"^\s*for\b.*\{\s*$", src[i]):
-            d, j = 0, i
-            while True:
-                d += src[j].count("{") - src[j].count("}")
-                if d == 0:
-                    break
-                j += 1
-            ranges.append((i + 1, j + 1))   # 1-based lines of the for statement .. closing brace
-        i += 1
-    return (start + 1, end + 1), ranges
+def loop_lines(pkgdir, func):
+    """(file, line range) of a function and the line ranges of the for-loop bodies inside it; the function is looked for
+    in every non-test file of the package (it may be moved between files)"""
+    d = os.path.join(common.REPO, pkgdir)
+    for fn in sorted(os.listdir(d)):
+        if not fn.endswith(".go") or fn.endswith("_test.go"):
+            continue
+        src = open(os.path.join(d, fn), encoding="utf-8", errors="replace").read().split("\n")
+        start = None
+        for i, l in enumerate(src):
+            if re.match(r"^func\s+(\([^)]*\)\s*)?%s\(" % re.escape(func), l):
+                start = i
+                break
+        if start is None:
+            continue
+        depth, end = 0, None
+        for i in range(start, len(src)):
+            depth += src[i].count("{") - src[i].count("}")
+            if depth == 0 and i > start:
+                end = i
+                break
+        if end is None:
+            continue
+        ranges = []
+        i = start
+        while i <= end:
+            if re.match(r"^\s*for\b.*\{\s*$", src[i]):
+                dd, j = 0, i
+                while j <= end:
+                    dd += src[j].count("{") - src[j].count("}")
+                    if dd == 0:
+                        break
+                    j += 1
+                ranges.append((i + 1, j + 1))
+            i += 1
+        return os.path.join(pkgdir, fn), (start + 1, end + 1), ranges
+    return None, None, []
 
 
 def run(tier):
@@ -182,7 +190,7 @@ def run(tier):
     rp.obligation("oracle: growth exponent <= %.1f for %d entry x family ladders (max input %d bytes)" % (EXP_LIMIT, len(rows), maxbytes), n_viol == 0)
 
     # tie 1: the proved bound on the measured loop-body executions inside toSQLPosition
-    frange, loops = loop_lines("pkg/sql/tokenizer/tokenizer.go", "toSQLPosition")
+    ffile, frange, loops = loop_lines("pkg/sql/tokenizer", "toSQLPosition")
     bound_bad = []
     checked = 0
     if frange:
@@ -190,7 +198,7 @@ def run(tier):
             if e != "tokenize" or "blocks" not in r:
                 continue
             iters = sum(c for (file, line), c in r["blocks"].items()
-                        if file == "pkg/sql/tokenizer/tokenizer.go" and any(a < line <= b for a, b in loops))
+                        if file == ffile and any(a < line <= b for a, b in loops))
             nbytes = r["info"]["bytes"]
             sql_lines = None
             checked += 1
